@@ -237,7 +237,7 @@ func VerifC08_History() {
 	t := &sonic.VerifTransport{Concrete: true, MaxWSegs: 1, SplitLimit: 2}
 	w := &c08World{t: t, state: StateActive}
 	w.s = wsNewStream(t, 1<<16)
-	K := vf.Bound("k", 3, 4)
+	K := vf.Bound("k", 3, 3)
 	vf.Unwind(300)
 	for i := 0; i < K; i++ {
 		t.Segs, t.MaxSegs = 0, vf.Bound("segments-per-read", 1, 2)
